@@ -86,6 +86,17 @@ def reorg_boundary(F, rule):
 			out.append(Result(rule, ok, ('ok:' if ok else 'shape:') + 'monitor-keep@' + label, 'ChannelMonitor %s keeps an awaiting event iff entry.height - new_height %s %d (expected <= 0: exactly the events above the fork point are retracted)' % (label, {'Le': '<=', 'Ge': '>=', 'Gt': '>', 'Eq': '==', 'Ne': '!='}.get(op, op), K), 1, where=F.where(cf.name, g.line)))
 		except AnchorMissing as e:
 			out.append(Result(rule, False, 'anchor:monitor-retain@' + label, 'anchor missing: %s' % e, where=F.where(F.fn(fn))))
+	# a confirmed-but-unlocked splice (alternative_funding_confirmed) is retracted by the same boundary: only when its block is ABOVE the fork point
+	try:
+		gs_ = [g for g in guards_in(F, MON + 'blocks_disconnected', with_closures=False) if any('alternative_funding_confirmed' in v for v in g.nf[0])]
+		if not gs_:
+			out.append(Result(rule, False, 'guard:alternative-funding-boundary', 'ChannelMonitorImpl::blocks_disconnected no longer compares the height of alternative_funding_confirmed with the fork point', where=F.where(F.fn(MON + 'blocks_disconnected'))))
+		for g in gs_:
+			o = g.oriented(r'alternative_funding_confirmed')
+			ok = o is not None and len(o[0]) == 2 and (o[1], o[2]) in (('Gt', 0), ('Ge', 1)) and any(v.endswith('.height') and c == -1 for v, c in o[0].items())
+			out.append(Result(rule, ok, ('ok:' if ok else 'shape:') + 'alternative-funding-boundary', 'ChannelMonitorImpl::blocks_disconnected forgets a confirmed alternative funding (splice) iff `%s` (expected: its confirmation height - fork point height > 0; a splice confirmed in the block that stays the tip is still confirmed - whichever way the chain was delivered)' % cmp_str(o if o else g.nf), 1, where=F.where(g.fu.name, g.line)))
+	except AnchorMissing as e:
+		out.append(Result(rule, False, 'anchor:alternative-funding-boundary', 'anchor missing: %s' % e))
 	# transaction_unconfirmed: drop iff entry.height >= removed_height  (keep iff entry.height - removed_height <= -1)
 	try:
 		fu, cf, rb = _retain_closure(F, MON + 'transaction_unconfirmed')
